@@ -26,6 +26,8 @@ def replay(ctx, path):
     with open(path) as f:
         rp = json.load(f)
     comp = rp.get("component")
+    if comp == "pipe":
+        return replay_pipe(ctx, rp, path)
     if rp.get("kind") != "case" or comp is None:
         raise ToolError("replay kind %r is handled by its own check" % rp.get("kind"))
     trace = COMPONENT[ctx.pid][1] if ctx.pid in COMPONENT else None
@@ -56,3 +58,197 @@ def c12(ctx):
     rnd = ctx.path("cases-b.ndjson")
     vlib.harness(["gen", "edit", ctx.seed, 2000 if q else 30000, rnd])
     vlib.exec_and_judge(ctx, "edit", rnd, "Trace_EditDist", "B", sample_keys=["as", "bs", "g", "swap", "sid", "d", "nd", "ops"])
+
+
+# ---------------------------------------------------------------------------
+# C05 / C09: the threaded pipeline
+
+C05_CLAUSES = {"upstream_sequential", "in_order", "processed_at_most_once", "complete_at_end",
+               "nothing_after_end", "iteration_ends", "progress"}
+C09_CLAUSES = {"bounded_lookahead", "bounded_pulls_after_drop", "threads_exit", "progress",
+               "terminates_on_panic", "buffered_lookahead", "buffered_pulls_after_drop",
+               "buffered_producer_exits", "buffered_in_order", "buffered_complete"}
+TIMING_CLAUSES = {"progress", "iteration_ends", "threads_exit", "buffered_producer_exits"}
+PIPE_INVS = "TypeOK InOrder AtMostOnce Complete LookAhead AfterDrop TurnInv"
+
+
+def pipe_cfg(W, N, lens, fail="{}", hook="TRUE", drop="TRUE", cap=None, invs=PIPE_INVS, props="", spec="SPECIFICATION Spec"):
+    cap = W if cap is None else cap
+    return ("CONSTANTS W = %d N = %d Lens = %s Cap = %d Fail = %s HookOn = %s AllowDrop = %s\n%s\n"
+            "INVARIANTS %s\n%s\nCHECK_DEADLOCK FALSE\n"
+            % (W, N, lens, cap, fail, hook, drop, spec, invs, ("PROPERTIES " + props) if props else ""))
+
+
+def pipe_paths(ctx, W, N, drop, label):
+    """Model-check Pipe for (W, all lengths 0..N), dump the state graph and derive an
+    edge-covering set of schedules for the real code."""
+    import graph
+    dot = ctx.path("pipe-%s.dot" % label)
+    lens = "{" + ",".join(str(k) for k in range(N + 1)) + "}"
+    cfg = pipe_cfg(W, N, lens, drop="TRUE" if drop else "FALSE",
+                   props="StopsAfterDrop Terminates" if drop else "Terminates")
+    r = vlib.tlc(ctx, "Pipe", cfg, workers=4, name="Pipe-" + label, coverage=True,
+                 extra=["-dump", "dot,actionlabels", dot[:-4]])
+    if not r["ok"]:
+        raise ToolError("Pipe model checking failed:\n" + "\n".join(r["out"].splitlines()[-40:]))
+    cov = vlib.action_coverage(r["out"])
+    ctx.mc.append({"module": "Pipe", "config": "W=%d N<=%d drop=%s" % (W, N, drop), "distinct_states": r["states"],
+                   "states_generated": r["generated"], "depth": r["depth"], "actions": cov,
+                   "properties": "invariants %s; liveness %s" % (PIPE_INVS, "StopsAfterDrop Terminates" if drop else "Terminates")})
+    ctx.states += r["states"]
+    ctx.transitions += r["generated"]
+    nodes, edges, inits = graph.parse_dot(dot)
+    os.remove(dot)
+    paths, ncov = graph.edge_cover_paths(edges, inits)
+    import re
+    cases = []
+    for root, labels in paths:
+        n = int(re.search(r"len = (\d+)", nodes[root]).group(1))
+        sched = []
+        for lab in labels:
+            m = re.match(r"\w+\((\d+)\)", lab)
+            sched.append("w" + m.group(1) if m else ("x" if lab == "Drop" else "c"))
+        cases.append({"mode": "controlled", "W": W, "N": n, "sched": sched, "path": labels,
+                      "blocking": False, "drain": True})
+    log("[paths] Pipe W=%d N<=%d drop=%s: %d states, %d edges, %d covering schedules (%d steps)"
+        % (W, N, drop, len(nodes), len(edges), len(cases), sum(len(c["sched"]) for c in cases)))
+    ctx.extra.setdefault("graph_edges_covered", 0)
+    ctx.extra["graph_edges_covered"] += ncov
+    return cases
+
+
+def pipe_judge(ctx, cases, label, clauses, mech=True):
+    """Run schedules / free runs on the real Pipe, judge the logs with the observable
+    monitor (property layer) and the mechanism trace spec (conformance)."""
+    cpath = ctx.path("cases-%s.ndjson" % label)
+    vlib.write_ndjson(cpath, cases)
+    obs_path = ctx.path("obs-%s.ndjson" % label)
+    vlib.harness(["exec", "pipe", cpath, obs_path, 60000])
+    obs = vlib.read_ndjson(obs_path)
+    fails, drifts, st = vlib.judge(ctx, "Trace_PipeObs", obs_path, len(obs), name="Trace_PipeObs-" + label)
+    ctx.traces += len(obs)
+    ctx.evaluations += len(obs)
+    ctx.nontrivial += st["nt"]
+    for idx, why in fails:
+        rec = obs[idx - 1]
+        mine = [w for w in why if w in clauses or w.startswith("harness") or w == "hang"]
+        if not mine:
+            continue
+        if set(mine) <= TIMING_CLAUSES:
+            # a time-out decided this: re-run once in isolation before reporting
+            again = pipe_rerun(ctx, rec["case"])
+            if not (set(again) & set(mine)):
+                ctx.extra["timing_retries"] = ctx.extra.get("timing_retries", 0) + 1
+                continue
+        slim = dict(rec)
+        vlib.report(ctx, mine, slim, component="pipe", case=rec["case"], kind="schedule")
+    for idx, why in drifts:
+        ctx.drift.append("%s run %d: %s" % (label, idx, why))
+    if mech:
+        pipe_mechanism(ctx, obs, obs_path, label)
+    if obs and len(ctx.samples) < 6:
+        r = obs[len(obs) // 3]
+        ctx.samples.append({"source": label, "W": r["W"], "N": r["N"], "mode": r["mode"],
+                            "schedule": r.get("sched", [])[:60],
+                            "events": ["%s(%s,%s)" % (e["e"], e["w"], e["x"]) for e in r["ev"][:60]]})
+    return obs
+
+
+def pipe_rerun(ctx, case):
+    cpath = ctx.path("rerun.ndjson")
+    vlib.write_ndjson(cpath, [case])
+    opath = ctx.path("rerun-obs.ndjson")
+    vlib.harness(["exec", "pipe", cpath, opath, 60000])
+    f, _, _ = vlib.judge(ctx, "Trace_PipeObs", opath, 1, name="Trace_PipeObs-rerun", workers=1)
+    return f[0][1] if f else []
+
+
+def pipe_mechanism(ctx, obs, obs_path, label):
+    """Trace_Pipe: every run must be a behaviour of Pipe.tla (lazy silent steps); DRIFT otherwise.
+    Pipe's invariants are evaluated on every reconstructed state."""
+    import re
+    for W in sorted({r["W"] for r in obs if r.get("st") == "ok" and r["W"] >= 1}):
+        runs = [r for r in obs if r.get("st") == "ok" and r["W"] == W]
+        nmax = max(r["N"] for r in runs)
+        cfg = pipe_cfg(W, nmax, "{}", spec="INIT TInit\nNEXT TNext")
+        r = vlib.tlc(ctx, "Trace_Pipe", cfg, env={"OBS": obs_path}, workers=4 if ctx.quick() else 8,
+                     name="Trace_Pipe-%s-W%d" % (label, W))
+        if not r["ok"]:
+            m = re.search(r"Invariant (\w+) is violated", r["out"])
+            if m:
+                k = re.findall(r"/\\ run = (\d+)", r["out"])
+                idx = int(k[-1]) if k else 0
+                inv = m.group(1)
+                prop_inv = {"InOrder": "in_order", "AtMostOnce": "processed_at_most_once", "Complete": "complete_at_end",
+                            "LookAhead": "bounded_lookahead", "AfterDrop": "bounded_pulls_after_drop"}
+                if inv in prop_inv and idx:
+                    why = prop_inv[inv]
+                    cl = C05_CLAUSES if ctx.pid == "C05" else C09_CLAUSES
+                    if why in cl:
+                        vlib.report(ctx, ["trace_state_" + why], obs[idx - 1], component="pipe",
+                                    case=obs[idx - 1]["case"], kind="schedule")
+                    continue
+                ctx.drift.append("%s W=%d: mechanism invariant %s fails on reconstructed state of run %d" % (label, W, inv, idx))
+                continue
+            raise ToolError("Trace_Pipe run failed:\n" + "\n".join(r["out"].splitlines()[-40:]))
+        acc = sum(1 for p in r["prints"] if p[0] == "STAT")
+        dr = [p for p in r["prints"] if p[0] == "DRIFT"]
+        if acc != len(runs):
+            raise ToolError("Trace_Pipe consumed %d of %d runs (W=%d)" % (acc, len(runs), W))
+        ctx.states += r["states"]
+        ctx.transitions += r["generated"]
+        ctx.extra["mechanism_runs_accepted"] = ctx.extra.get("mechanism_runs_accepted", 0) + acc - len(dr)
+        for p in dr:
+            ctx.drift.append("%s W=%d run %d not a behaviour of Pipe.tla at %s" % (label, W, p[1], p[2]))
+        log("[trace] Trace_Pipe %s W=%d: %d runs, %d accepted, %d events/states, %.1fs"
+            % (label, W, len(runs), acc - len(dr), r["states"], r["wall"]))
+
+
+def replay_pipe(ctx, rp, path):
+    clauses = C05_CLAUSES if ctx.pid == "C05" else C09_CLAUSES
+    case = rp["case"]
+    if case.get("mode") == "free":
+        # a free-running execution is not reproducible; its recorded log is the evidence
+        opath = ctx.path("replay-obs.ndjson")
+        vlib.write_ndjson(opath, [rp["observation"]])
+        fails, _, _ = vlib.judge(ctx, "Trace_PipeObs", opath, 1, workers=1)
+        ctx.traces += 1
+        for idx, why in fails:
+            mine = [w for w in why if w in clauses]
+            if mine:
+                vlib.report(ctx, mine, rp["observation"], component="pipe", case=case, kind="schedule")
+    elif case.get("mode") == "buffered":
+        buffered_judge(ctx, [case], "replay", clauses)
+    else:
+        pipe_judge(ctx, [case], "replay", clauses)
+    ctx.rule = "replay of " + path
+    return vlib.finish(ctx)
+
+
+@prop("C05")
+def c05(ctx):
+    q = ctx.quick()
+    ctx.rule = ("MC: Pipe.tla for the listed (W, N) with all upstream lengths 0..N, every interleaving; "
+                "A: an edge cover of each state graph replayed as controlled schedules on the real Pipe "
+                "(one granted step per spec action, hooks at the schedule points); B: seeded random actor "
+                "schedules (controlled, incl. steps into blocking sends) and free-running recorded runs. "
+                "non-trivial = a run in which two workers are simultaneously between processing and turn hand-over")
+    ctx.assumptions = ["SeqCst atomics and std::sync::mpsc are linearizable; the hooks serialise threads only at the schedule points",
+                       "time-outs (1.5 s per step) only decide 'no progress'; such a verdict is re-run once before it is reported"]
+    cases = []
+    for (W, N) in ([(1, 2), (2, 2), (2, 3)] if q else [(1, 3), (2, 3), (3, 3), (2, 4)]):
+        cases += pipe_paths(ctx, W, N, False, "nodrop-W%dN%d" % (W, N))
+    # larger instances: design only (no replay)
+    for (W, N) in ([(3, 3)] if q else [(3, 4), (4, 4)]):
+        lens = "{" + ",".join(str(k) for k in range(N + 1)) + "}"
+        vlib.mc(ctx, "Pipe", pipe_cfg(W, N, lens, drop="FALSE", props="Terminates"), name="Pipe-W%dN%d" % (W, N),
+                disabled_ok=("Drop",))
+    # W = 0: the un-threaded branch is a lazy map
+    cases += [{"mode": "controlled", "W": 0, "N": n, "sched": ["c"] * k, "blocking": False, "drain": True}
+              for n in range(0, 5) for k in (0, 2)]
+    pipe_judge(ctx, cases, "A", C05_CLAUSES)
+    ctx.exhaustive = True
+    rnd = ctx.path("cases-b.ndjson")
+    vlib.harness(["gen", "pipe", ctx.seed, 600 if q else 6000, rnd])
+    rc = [c for c in vlib.read_ndjson(rnd)]
+    pipe_judge(ctx, rc, "B", C05_CLAUSES)
